@@ -46,3 +46,35 @@ KERNELS = [
 
 # files whose functions may be inlined when called from a kernel
 INLINE_FILES = [BLAS, SPATIAL, MISC]
+
+
+# Per-property kernel lists live in translate/kernels_cXX.py (each defines KERNELS and optionally
+# INLINE_FILES) so that concurrent work never edits this file; they are merged here, duplicates by
+# (name, lean, fix) dropped.
+import glob as _glob
+import importlib.util as _ilu
+import os as _os
+
+
+def _merge():
+    seen = {(k["name"], k.get("lean"), str(k.get("fix"))) for k in KERNELS}
+    here = _os.path.dirname(_os.path.abspath(__file__))
+    for path in sorted(_glob.glob(_os.path.join(here, "kernels_c[0-9][0-9]*.py"))):
+        spec = _ilu.spec_from_file_location(_os.path.basename(path)[:-3], path)
+        mod = _ilu.module_from_spec(spec)
+        try:
+            spec.loader.exec_module(mod)
+        except Exception as e:  # a list under construction must not break the others
+            print("warning: %s not loadable: %s" % (path, e))
+            continue
+        for k in getattr(mod, "KERNELS", []):
+            key = (k["name"], k.get("lean"), str(k.get("fix")))
+            if key not in seen:
+                seen.add(key)
+                KERNELS.append(k)
+        for f in getattr(mod, "INLINE_FILES", []):
+            if f not in INLINE_FILES:
+                INLINE_FILES.append(f)
+
+
+_merge()
